@@ -58,6 +58,9 @@ func makeWitness(prop string, hr *HarnessResult, p *PathResult, tier int) witnes
 			w.Vars[in.Key] = v
 		}
 	}
+	for _, e := range p.Exports {
+		w.Vars["export:"+e.Name] = e.Val
+	}
 	for _, d := range p.Decisions {
 		w.Decisions = append(w.Decisions, d.kind+"="+d.label)
 	}
